@@ -245,7 +245,7 @@ def malformed_stream(ctx, raws):
     agree on acceptance, and an accepted string must re-encode to itself (C06_decoder_strict).  pytezos has no operation
     decoder, so this validates the *spec* (both readers are the checker's own): a disagreement is a checker inconsistency."""
     rng = ctx.rng.__class__(f'{ctx.seed}:malformed')
-    n = ctx.n(300, 4000)
+    n = ctx.n(300, 3000)
     cases, muts = [], []
     pool = [r for r in raws if len(r) < 700] or raws
     while len(cases) < n and pool:
@@ -306,7 +306,7 @@ def run(ctx: lib.Ctx) -> None:
         groups.append(('recorded:' + name, {'branch': doc['branch'], 'contents': [strip_meta(c) for c in doc['contents']]}))
     groups += [('systematic', g) for g in systematic_groups(rng)]
     groups += [('unit-spelling', g) for g in spelling_groups(rng)]
-    n_total = ctx.n(800, 8000)
+    n_total = ctx.n(800, 6000)
     while len(groups) < n_total:
         g = gen_group(rng)
         groups.append(('random', g))
